@@ -27,6 +27,8 @@ Inductive gcase :=
 (* cell_to_boundary(id, segments): the implementation's ring with the closing point removed and the
    order reversed back to pentagon order; longitudes are compared modulo 360 *)
 | GBoundary (id : Z) (segments : option Z) (pts : list (dyv * dyv)) (tol : dyv)
+(* cell_to_boundary(id, {segments, closed_ring}) as returned: order, closing point and unwrapped longitudes *)
+| GRing (id : Z) (segments : option Z) (closed : bool) (pts : list (dyv * dyv)) (tol : dyv)
 (* a5cell_contains_point(cell of id, lon, lat) > 0 ? *)
 | GContains (id : Z) (lon lat : dyv) (e : bool).
 
@@ -39,6 +41,13 @@ Definition widen (a : iv) : iv :=
 
 Definition lon_close (m : iv) (e tol : dyv) : bool :=
   existsb (fun k => iv_contains_dy (I.add prec m (iv_ofZ (360 * k))) e tol) [0; 1; -1; 2; -2]%Z.
+
+Fixpoint pts_equal (l : list (iv * iv)) (e : list (dyv * dyv)) (tol : dyv) : bool :=
+  match l, e with
+  | [], [] => true
+  | (lo, la) :: ls, (elo, ela) :: es => iv_contains_dy lo elo tol && iv_contains_dy la ela tol && pts_equal ls es tol
+  | _, _ => false
+  end.
 
 Fixpoint pts_close (l : list (iv * iv)) (e : list (dyv * dyv)) (tol : dyv) : bool :=
   match l, e with
@@ -94,6 +103,12 @@ Definition gcheck (c : gcase) : Z :=
   | GBoundary id segments pts tol =>
       match cell_boundary_raw IvInst id segments with
       | Some (Ok l) => if pts_close l pts tol then 0 else 1
+      | Some _ => 1
+      | None => 2
+      end
+  | GRing id segments closed pts tol =>
+      match cell_to_boundary IvInst id segments closed with
+      | Some (Ok l) => if pts_equal l pts tol then 0 else 1
       | Some _ => 1
       | None => 2
       end
